@@ -17,6 +17,9 @@ var badNumbers = []string{"-1", "99999999999999999999999999", "-9999999999999999
 // corrupt applies one random corruption to the canonical lines; returns the kind.
 func corrupt(lines []string, d asm.Dialect, m int, r *Rng) ([]string, string) {
 	out := append([]string{}, lines...)
+	if len(out) == 0 {
+		out = []string{""}
+	}
 	// instruction line indexes
 	var il []int
 	for i, l := range out {
@@ -31,10 +34,55 @@ func corrupt(lines []string, d asm.Dialect, m int, r *Rng) ([]string, string) {
 		}
 		return il[r.Intn(len(il))]
 	}
-	fieldsOf := func(l string) []string { return strings.Fields(strings.ReplaceAll(l, ",", " , ")) }
+	fieldsOf := func(l string) []string {
+		f := strings.Fields(strings.ReplaceAll(l, ",", " , "))
+		if len(f) == 0 {
+			f = []string{"MOV.I"}
+		}
+		return f
+	}
 	join := func(f []string) string { return "   " + strings.Join(f, " ") }
 	kind := ""
-	switch r.Intn(16) {
+	switch r.Intn(19) {
+	case 16, 17:
+		// lines around and beyond typical I/O buffer sizes: padding, long comments, long garbage
+		kind = "long-line"
+		n := []int{4090, 4094, 4095, 4096, 4097, 4100, 8192, 65535, 65536, 70000}[r.Intn(10)]
+		i := r.Intn(len(out) + 1)
+		switch r.Intn(4) {
+		case 0: // a long comment line
+			out = append(out[:i], append([]string{";" + strings.Repeat("c", n)}, out[i:]...)...)
+		case 1: // a long blank line
+			out = append(out[:i], append([]string{strings.Repeat(" ", n)}, out[i:]...)...)
+		case 2: // an existing line padded with blanks / followed by a long trailing comment
+			j := r.Intn(len(out))
+			if r.Bool() {
+				out[j] = strings.Repeat(" ", n) + out[j]
+			} else {
+				out[j] = out[j] + " ;" + strings.Repeat("t", n)
+			}
+		default: // a long garbage line
+			out = append(out[:i], append([]string{strings.Repeat("x", n)}, out[i:]...)...)
+		}
+	case 18:
+		// non-ASCII letters, among them ones whose lower-case form has a different byte length
+		kind = "unicode"
+		u := []string{"\u212a", "\u212b", "\u2126", "\u1e9e", "\u0130", "\u01c5", "\ufb01", "\u00e9", "\u03bb", "\u2028", "\u212a\u212a", "\u212b\u212a\u2126"}[r.Intn(12)]
+		j := r.Intn(len(out))
+		switch r.Intn(4) {
+		case 0:
+			out[j] = u + out[j]
+		case 1:
+			out[j] = out[j] + u + ";"
+		case 2:
+			out[j] = u + ";" + out[j]
+		default:
+			pos := r.Intn(len(out[j]) + 1)
+			out[j] = out[j][:pos] + u + out[j][pos:]
+		}
+		if r.Bool() {
+			out = append(out, u+u+";")
+		}
 	case 0:
 		kind = "field-deleted"
 		i := pickLine()
@@ -240,17 +288,27 @@ func runC10(c *Ctx) {
 		}
 		set := 0
 		if r.Chance(1, 3) {
-			set = r.Intn(1 << 10)
+			set = r.Intn(1 << asm.NumPerturbations)
 		}
 		text := asm.Perturb(lines, set, d, r)
 		var texts []string
-		if r.Chance(1, 4) {
+		if r.Chance(1, 4) && len(text) <= 1500 {
 			// truncation at EVERY byte of this file
 			for k := 0; k <= len(text); k++ {
 				texts = append(texts, text[:k])
 			}
 			kind += "+all-truncations"
 			c.Count("truncation_offsets_covered", int64(len(text)+1))
+		} else if r.Chance(1, 4) {
+			// a big file: a sample of truncation offsets, those around multiples of 4096 included
+			for n := 0; n < 12; n++ {
+				k := r.Intn(len(text) + 1)
+				if n < 6 && len(text) > 4096 {
+					k = min(len(text), (1+r.Intn(len(text)/4096))*4096+r.Intn(5)-2)
+				}
+				texts = append(texts, text[:k])
+			}
+			kind += "+sampled-truncations"
 		} else if r.Chance(1, 3) {
 			texts = []string{text[:r.Intn(len(text)+1)]}
 			kind += "+truncated"
